@@ -147,7 +147,52 @@ def grid_case(kind, form, setting, count):
     return fails, (verdict == "invalid" or boundary)
 
 
+def ctor_case(kind, setting):
+    """The cardinality given to the constructor is an assignment like any other."""
+    fails = []
+    verdict, eff = M.classify(setting)
+    raised = None
+    obj = None
+    holder = odml.Section(name="holder", type="t")
+    try:
+        if kind == "values":
+            obj = odml.Property(name="p", values=[1, 2], dtype="int", val_cardinality=setting, parent=holder)
+        elif kind == "properties":
+            obj = odml.Section(name="s", type="t", prop_cardinality=setting, parent=holder)
+        else:
+            obj = odml.Section(name="s", type="t", sec_cardinality=setting, parent=holder)
+    except ValueError as exc:
+        raised = exc
+    except Exception as exc:  # noqa
+        raised = exc
+        fails.append(failure("card.exception_type", "constructor with %r raised %s instead of ValueError"
+                             % (setting, type(exc).__name__), kind=kind, setting=repr(setting), form="ctor"))
+    if raised is not None:
+        if verdict == "valid":
+            fails.append(failure("card.valid_refused", "constructor refused the valid setting %r: %r"
+                                 % (setting, raised), kind=kind, setting=repr(setting), form="ctor"))
+        if len(holder.sections) or len(holder.properties):
+            fails.append(failure("card.refused_changed", "constructor refused %r but the object was attached"
+                                 % (setting,), kind=kind, setting=repr(setting), form="ctor"))
+        return fails, verdict == "invalid"
+    stored = getattr(obj, ATTR[kind])
+    if verdict == "invalid":
+        fails.append(failure("card.invalid_accepted", "constructor accepted the invalid setting %r (stored %r)"
+                             % (setting, stored), kind=kind, setting=repr(setting), form="ctor"))
+    elif verdict == "valid" and M.normal_form_ok(stored) and M.effective(stored) != eff:
+        fails.append(failure("card.meaning", "constructor setting %r stored as %r" % (setting, stored),
+                             kind=kind, setting=repr(setting), form="ctor"))
+    check_state(obj, kind, fails, "after constructor with %r" % (setting,), setting=repr(setting))
+    return fails, verdict == "invalid" or stored is not None
+
+
 def run_grid(kind, ctx):
+    for setting in settings():
+        case = {"kind": kind, "form": "ctor", "setting": repr(setting), "count": 0}
+        fails, nt = ctor_case(kind, setting)
+        unmatched = ctx.case(case, nt, ["grid:ctor:" + M.classify(setting)[0]], fails, kind="grid")
+        if unmatched:
+            ctx.violation("grid", case, unmatched)
     for form in ("attr", "method"):
         for setting in settings():
             if form == "method" and not (isinstance(setting, (tuple, list)) and len(setting) == 2):
@@ -282,11 +327,13 @@ _MID = st.tuples(st.sampled_from(["a", "b", "c"]), st.lists(_LEAF, max_size=2, u
                  st.lists(_PROP, max_size=2, unique_by=lambda t: t[0]),
                  st.sampled_from(_CARDS), st.sampled_from(_CARDS))
 FOREST = st.tuples(st.lists(_MID, min_size=1, max_size=3, unique_by=lambda t: t[0]),
-                   st.sampled_from(["doc", "doc.validate", "top_section"]))
+                   st.sampled_from(["doc", "doc.validate", "top_section"]),
+                   st.one_of(st.none(), st.none(), st.tuples(st.integers(0, 2), st.integers(0, 2)).map(list)))
 
 
 def forest_body(case):
-    mids, entry = case
+    mids, entry = case[0], case[1]
+    link = case[2] if len(case) > 2 else None
     fails = []
     doc = odml.Document()
     objs = []          # (object, kind)
@@ -309,6 +356,23 @@ def forest_body(case):
         mid.sec_cardinality = scard
         mid.prop_cardinality = pcard
         objs.extend([(mid, "sections"), (mid, "properties")])
+    linked = False
+    if link is not None and len(doc.sections) >= 2:
+        # children taken over through a resolved link count like any other child
+        a, b = doc.sections[link[0] % len(doc.sections)], doc.sections[link[1] % len(doc.sections)]
+        if a is not b:
+            try:
+                a.link = b.get_path()
+                linked = bool(a.is_merged)
+            except Exception:
+                linked = False
+            if linked:
+                for s_ in a.sections:
+                    if not any(o is s_ for o, _ in objs):
+                        objs.extend([(s_, "sections"), (s_, "properties")])
+                for p_ in list(a.properties) + [p for s_ in a.sections for p in s_.properties]:
+                    if not any(o is p_ for o, _ in objs):
+                        objs.append((p_, "values"))
     if entry == "doc":
         errs = Validation(doc).errors
         scope = None
@@ -345,7 +409,8 @@ def forest_body(case):
         if any(not e.is_warning for e in hits):
             fails.append(failure("card.rank", "document validation: cardinality issue reported as error",
                                  kind=kind, scope="document"))
-    return expected_hits >= 2, ["forest:" + entry] + (["forest:equal_content_twins"] if twins else []), fails[:4]
+    return expected_hits >= 2, ["forest:" + entry] + (["forest:equal_content_twins"] if twins else []) + \
+        (["forest:resolved_link"] if linked else []), fails[:4]
 
 
 def plan(tier):
@@ -363,7 +428,7 @@ def run(shard, seed, ctx):
     elif shard["type"] == "persist":
         run_persist(shard["fmt"], ctx)
     elif shard["type"] == "forest":
-        hyp.drive(ctx, "forest", FOREST.map(lambda c: [[list(m) for m in c[0]], c[1]]),
+        hyp.drive(ctx, "forest", FOREST.map(lambda c: [[list(m) for m in c[0]], c[1], c[2]]),
                   lambda c: forest_body(_forest_case(c)), shard["n"], seed)
     else:
         hyp.drive(ctx, "history", HISTORY, history_body, shard["n"], seed)
@@ -380,7 +445,7 @@ def _forest_case(case):
     for name, leaves, ps, sc, pc in case[0]:
         mids.append((name, [(ln, props(lp), card(ls), card(lpc)) for ln, lp, ls, lpc in leaves],
                      props(ps), card(sc), card(pc)))
-    return mids, case[1]
+    return mids, case[1], (case[2] if len(case) > 2 else None)
 
 
 def replay(kind, case):
@@ -388,6 +453,8 @@ def replay(kind, case):
         return forest_body(_forest_case(case))[2]
     if kind == "grid":
         setting = eval(case["setting"], {"__builtins__": {}}, {})  # repr of plain literals
+        if case["form"] == "ctor":
+            return ctor_case(case["kind"], setting)[0]
         return grid_case(case["kind"], case["form"], setting, case["count"])[0]
     if kind == "persist":
         setting = eval(case["setting"], {"__builtins__": {}}, {})
